@@ -171,6 +171,44 @@ def rules(rep, m):
                   "the guards, and a grant made to the ending process would be lost", floor=1)
     stop_ordering(rep, r5, m)
 
+    # R-C08-6 ------------------------------------------------------------
+    r6 = rep.rule("R-C08-6", "a signal wakes only the first waiter: a process that is served from availability of several "
+                  "units and returns with success passes what is left on to the next waiter of its own kind - on every "
+                  "success return of a multi-unit take (buffer put / get, pool acquire) the guard the caller itself waits at "
+                  "is signalled again, unconditionally or under 'something is left'", floor=3)
+    SIGNAL_ON = (("cmb_buffer_put", "rear_guard", r"\(\S+->level < \S+->capacity\)|\(\S+->capacity > \S+->level\)|\(\(\S+->capacity - \S+->level\) > 0\)"),
+                 ("cmb_buffer_get", "front_guard", r"\(\S+->level > 0\)|\(\S+->level != 0\)|!\(\S+->level == 0\)"),
+                 ("cmi_pool_acquire_inner", "guard", r"\(\S+->in_use < \S+->capacity\)|\(\S+->capacity > \S+->in_use\)"))
+    for fn, gname, remains in SIGNAL_ON:
+        f = m.need(fn)
+        fx = FuncCtx(m, f)
+        waits_here = [c for c in walk(f.body) if c["kind"] == "CallExpr" and callee_ref(c) == "cmb_resourceguard_wait" and
+                      fx.canon(kids(c)[1]).endswith(gname)]
+        if not waits_here:
+            raise AnalysisBroken("%s does not wait at '%s'" % (fn, gname))
+        sigs = [c for c in walk(f.body) if c["kind"] == "CallExpr" and callee_ref(c) == "cmb_resourceguard_signal" and
+                fx.canon(kids(c)[1]).endswith(gname)]
+        rets = [y for y in walk(f.body) if y["kind"] == "ReturnStmt" and kids(y) and common.sigval(fx.canon(kids(y)[0])) == 0]
+        for rt in rets:
+            rc = inv.dominating_conditions(fx, f, rt)
+            ok = False
+            order = {id(y): i for i, y in enumerate(walk(f.body))}
+            for sg in sigs:
+                sc = inv.dominating_conditions(fx, f, sg)
+                extra = [cd for cd in sc if cd not in rc]
+                if all(cd in sc for cd in rc) and all(re.fullmatch(remains, cd) for cd in extra) and \
+                        order[id(sg)] < order[id(rt)]:
+                    ok = True
+            r6.instance("%s: success return at line %s hands leftovers on to '%s': %s" % (fn, rt.get("line") or (loc(rt) or "").split(":")[-1], gname, ok))
+            if not ok:
+                rep.finding(r6, fn, "handover:leftover:" + gname, "%s returns success without signalling '%s', the guard its own kind "
+                            "waits at: the signal that woke it reached only the first waiter, so when it leaves units (space) "
+                            "behind, the next waiter of the same kind stays blocked although it could be served"
+                            % (fn, gname), where=m.rel(loc(rt)))
+                r6.fail()
+            else:
+                r6.ok()
+
 
 def stop_ordering(rep, rule, m):
     """Shared by C08 and C09: unwind a possibly blocked process before dropping its holdings."""
